@@ -455,7 +455,17 @@ pub fn run(ctx: &RunCtx) -> i32 {
                                     r.violate("largest-packets/refused-send-emits-a-packet", "", replay());
                                 }
                             }
-                            (res, fits) => r.violate(format!("largest-packets/{}/{}", if fits { "send-fails" } else { "oversized-send-succeeds" }, rp.name), format!("{:?} at {} bytes", res, size(n)), replay()),
+                            // (the statement speaks about the packets that ARE emitted: a client that refuses a large send
+                            // without emitting anything does not contradict it; the required symbol "largest-packets" keeps the
+                            // job from passing vacuously)
+                            (CallRes::SendErr(_) | CallRes::IndErr(_), true) => {
+                                if outs.is_empty() {
+                                    r.sym("large-send-refused-without-a-packet");
+                                } else {
+                                    r.violate("largest-packets/refused-send-emits-a-packet", "", replay());
+                                }
+                            }
+                            (res, _) => r.violate(format!("largest-packets/oversized-send-succeeds/{}", rp.name), format!("{:?} at {} bytes", res, size(n)), replay()),
                         }
                     }
                 }
